@@ -1853,7 +1853,11 @@ StorageReflectSession :: CloneDataNodeSubtree(const DataNode & node, const Strin
          for (uint32 i=0; i<idxLen; i++)
          {
             const String & nodeName = (*index)[i]()->GetNodeName();
-            if (clone->HasChild(nodeName)) MRETURN_ON_ERROR(clone->InsertIndexEntryAt(writeIdxCounter++, this, nodeName));
+            if (clone->HasChild(nodeName))
+            {
+               (void) clone->RemoveIndexEntry(nodeName, this);  // in case the destination node already listed this child
+               MRETURN_ON_ERROR(clone->InsertIndexEntryAt(writeIdxCounter++, this, nodeName));
+            }
          }
       }
       else return B_DATA_NOT_FOUND;
